@@ -21,6 +21,8 @@ SPEC = {
                     "header-announced-first": 0.1, "variants-redelivered-after": 0.2, "uncommitted-block": 0.05},
             rule="histories: 1-3 malleated variants with the genuine header delivered before the genuine block; verdict BLOCK_MUTATED, genuine hash never marked failed, genuine block accepted as tip"),
         gen("vh_c04", "up_merkle", 40000, 600000, max_seconds_quick=600, rule="upstream fuzz target merkle (asserts + sanitizers), supplementary"),
+        # coverage-guided libFuzzer campaign on the same target (thorough tier only; fz tree = g++ trace-pc + covshim)
+        fuzz('vh_c04', 'c04_merkle', 300, max_len=420),
     ],
 }
 
